@@ -7,7 +7,7 @@
     of Connection.set_keyspace_blocking/async are run side by side with coq/Model/CqlLex.v; the Coq lexer is compared
     with the independent Python lexer (lib/vf/lex_oracle.py) which is the executable statement applied to the driver.
 """
-import itertools, json, os, threading
+import enum, itertools, json, os, threading
 from vf import core, lex_gen
 from vf import lex_oracle as LO
 
@@ -25,11 +25,34 @@ META = {
 }
 
 ALPHABET = ['a', 'A', '0', '_', '"', "'", '\n', ' ', 'é', '\U0001d11e']
-WIDE = ALPHABET + ['z', 'Z', '9', 'k', 'K', 'İ', '\r', '\t', '\x00', '\ud800', '\U0010ffff', '$', ';', '-', '\\', '%', '\x0b', '\x1c', '\x85', ' ']
+# characters Python's str/re treat specially: non-ASCII decimal digits (\\d, isdigit), letters whose lower()/casefold()/re.I
+# images are ASCII (KELVIN SIGN, dotless i, long s, I with dot), a combining mark
+ALPHABET2 = ['a', 'k', '0', '_', '\u0663', '\uff11', '\u096a', '\u0131', '\u017f', '\u212a', '\u0130', '\u0301']
+WIDE = ALPHABET2 + ALPHABET + ['z', 'Z', '9', 'k', 'K', 'İ', '\r', '\t', '\x00', '\ud800', '\U0010ffff', '$', ';', '-', '\\', '%', '\x0b', '\x1c', '\x85', ' ']
 
 
 def gen(ctx):
     ctx.generate('CqlKeywords.v', lambda: lex_gen.emit(core.REPO))
+
+
+class Str1(str):
+    pass
+
+
+class Str2(Str1):
+    """two levels below str"""
+
+
+class Mix(object):
+    pass
+
+
+class Str3(Mix, Str2):
+    pass
+
+
+def str_enum_member(text):
+    return enum.StrEnum('E', {'M': text}).M if text else None
 
 
 class StubConn(object):
@@ -89,6 +112,14 @@ def impl_outputs(n, conn):
         'cql_quote': EN.cql_quote(n),
         'protect_value': MD.protect_value(n),
     }
+    # string literals quoted through the Encoder, as schema export does for custom-index options
+    # (IndexMetadata.as_cql_query: cql_encode_all_types(options, as_text_type=True)); values may be instances of str subclasses
+    e = MD._encoder if hasattr(MD, '_encoder') else EN.Encoder()
+    out['encoder_str'] = [e.cql_encode_all_types(n), e.cql_encode_all_types(Str1(n)), e.cql_encode_all_types(Str2(n)),
+                          e.cql_encode_all_types(Str3(n), as_text_type=True)]
+    m = str_enum_member(n)
+    if m is not None and m == n:
+        out['encoder_str'].append(e.cql_encode_all_types(m))
     if n:
         out['use_blocking'] = conn.blocking(n)
         out['use_async'] = conn.asynchronous(n)
@@ -127,6 +158,11 @@ def judge(n, out, reserved):
         q = out[fn]
         if LO.lex_string(q) != want:
             bad.append(('%s.not-read-back' % fn, '%s(%r) = %r lexes as %r' % (fn, n, q, LO.lex_string(q)), fn, q))
+    for i, q in enumerate(out.get('encoder_str', [])):
+        if LO.lex_string(q) != want:
+            cls = ['str', 'str.subclass', 'str.subclass-indirect', 'str.subclass-indirect-mixin', 'str.StrEnum'][i]
+            bad.append(('Encoder.%s.not-read-back' % cls, 'Encoder.cql_encode_all_types(<%s> %r) = %r lexes as %r' % (cls, n, q, LO.lex_string(q)),
+                        'encoder_str', q))
     for fn in ('use_blocking', 'use_async'):
         if fn in out:
             u = out[fn]
@@ -175,6 +211,9 @@ def names(ctx, reserved, unreserved):
     ex = ['']
     for k in range(1, maxlen + 1):
         ex += [''.join(t) for t in itertools.product(ALPHABET, repeat=k)]
+    for k in range(1, (3 if ctx.tier == 'thorough' else 2) + 1):
+        ex += [''.join(t) for t in itertools.product(ALPHABET2, repeat=k)]
+    ex += ['a' + ''.join(t) for t in itertools.product(ALPHABET2[4:], repeat=2)] + ['col' + c for c in ALPHABET2] + ['n' + c + '1' for c in ALPHABET2]
     rng = ctx.rng
     extra = []
     if ctx.tier == 'quick':
@@ -228,7 +267,8 @@ def run(ctx):
         with core.BuildLock():
             core.sh(['timeout', '300', 'make', '-C', core.COQ, 'Model/CqlLex.vo'], timeout=330)
     from cassandra import metadata as MD
-    reserved = set(MD.cql_keywords_reserved)
+    driver_reserved = set(MD.cql_keywords_reserved)
+    reserved = LO.lexer_reserved(driver_reserved)      # the lexer also reserves the core words whatever the driver table says
     unreserved = set(MD.cql_keywords_unreserved)
     ctx.trust('transcription of Cassandra Lexer.g token rules IDENT/QUOTED_NAME/STRING_LITERAL/INTEGER (coq/Model/CqlLex.v part 1; '
               'lib/vf/lex_oracle.py is its Python twin, compared with it on every case)',
@@ -242,11 +282,12 @@ def run(ctx):
             'is', 'keyspace', 'limit', 'materialized', 'modify', 'nan', 'norecursive', 'not', 'null', 'of', 'on', 'or', 'order',
             'primary', 'rename', 'replace', 'revoke', 'schema', 'select', 'set', 'table', 'to', 'token', 'truncate', 'unlogged',
             'update', 'use', 'using', 'view', 'where', 'with', 'default', 'unset', 'mbean', 'mbeans'}
-    ctx.extra['reserved_list_vs_my_transcription'] = {'in_mine_not_in_driver': sorted(mine - reserved),
-                                                      'driver_reserved_count': len(reserved), 'note': 'evidence only (DESIGN 2.5)'}
+    ctx.extra['reserved_list_vs_my_transcription'] = {'in_mine_not_in_driver': sorted(mine - driver_reserved), 'core_words_missing_from_driver_table': sorted(LO.CORE_RESERVED - driver_reserved),
+                                                      'driver_reserved_count': len(driver_reserved), 'note': 'evidence only (DESIGN 2.5)'}
     ex, others, maxlen = names(ctx, reserved, unreserved)
     ctx.exhaustive = True
-    ctx.rule = ('every string of length <= %d over the alphabet a A 0 _ " \' \\n space e-acute U+1D11E (exhaustive), every driver keyword in '
+    ctx.rule = ('every string of length <= %d over the alphabet a A 0 _ " \' \\n space e-acute U+1D11E (exhaustive), every string of length <= 2 (quick) / 3 (thorough) over a k 0 _ and non-ASCII digits / KELVIN SIGN / dotless i / long s / '
+                'I-with-dot / combining acute (exhaustive), every driver and core-reserved keyword in '
                 '5-9 spellings, targeted names, %d random longer names over a wider alphabet (controls, KELVIN SIGN, lone surrogate, '
                 'U+10FFFF); corpus first.  non-trivial = distinct name that is empty or has a character outside [a-z0-9_] or a '
                 'non-letter first character' % (maxlen, len(others)))
@@ -316,7 +357,7 @@ def replay(ctx, rp):
         return 1
     n = ''.join(chr(c) for c in case['arg'])
     out = impl_outputs(n, StubConn())
-    bad = judge(n, out, set(MD.cql_keywords_reserved))
+    bad = judge(n, out, LO.lexer_reserved(MD.cql_keywords_reserved))
     for key, what, fn, actual in bad:
         print('replay: %s: %s' % (key, what))
     hit = [b for b in bad if b[0] == rp.get('key')] or bad
